@@ -76,7 +76,9 @@ type MMeltQuote struct {
 	State         nut05.State
 	Inputs        []string
 	InternalTo    int // index of the mint quote with the same invoice, -1 if none
-	Preimage      string
+	// ForeignSameHash: the invoice is somebody else's; it only shares the payment hash with the mint quote InternalTo
+	ForeignSameHash bool
+	Preimage        string
 }
 
 type SignedRec struct {
@@ -582,7 +584,14 @@ func (w *World) MeltTokens(q *MMeltQuote, inputs cashu.Proofs) (storage.MeltQuot
 		q.Inputs = secretsOf(inputs)
 		w.checkPaidTruth(q, "melt")
 		if q.InternalTo >= 0 && len(pays) == 0 {
-			w.M.MintQuotes[q.InternalTo].Internal++
+			if q.ForeignSameHash {
+				// nothing was paid to anybody: the melt's invoice is not the mint quote's invoice
+				mq := w.M.MintQuotes[q.InternalTo]
+				w.Flag("C02", "melt_of_foreign_invoice_settled_internally", "melt of a foreign invoice of %d sat settled without any payment against own mint quote %d of %d sat (same payment hash)", q.Amount, mq.Idx, mq.Amount)
+				w.Flag("C03", "mint_quote_settled_by_melt_of_foreign_invoice", "mint quote %d of %d sat marked paid by a melt of %d sat of somebody else's invoice", mq.Idx, mq.Amount, q.Amount)
+			} else {
+				w.M.MintQuotes[q.InternalTo].Internal++
+			}
 		}
 	case nut05.Pending:
 		if inSum < q.Amount+q.FeeReserve+fee {
